@@ -24,10 +24,14 @@ itself builds in ``merge``, ``transient_to_pending`` / ``detached_to_persistent`
 ``inspect(obj)`` shows exactly the destination state while the listener runs.  Judged
 after every operation: every tracked instance shows exactly one of the five state flags
 and it is the shadow state (a state change without event, a missing or doubled event all
-end here); no instance's event chain inside one operation visits a state twice.
+end here); no instance's event chain inside one operation visits a state twice; after a
+successful commit / rollback nothing of the session is left pending or deleted, after a
+flush nothing pending, after close / expunge_all nothing attached (documented end states:
+this is what exposes a transition that silently did not happen).
 
 Workload: exhaustive sequences (<=3 ops quick, <=4 thorough) over a 17-op alphabet on two
-linked objects (P parent, C child) from two start configurations (new / loaded), all
+linked objects (P parent, C child) from two start configurations (new / loaded; from
+length 3 on the configuration alternates), all
 sequences of length 4-5 (6 thorough) over {add, delete+flush, flush, rollback, commit,
 expunge} on one new object, plus
 seeded random histories (6-16 ops) on up to four objects with a second session (SQL-free
@@ -60,7 +64,8 @@ META = {
                 "ev_transient_to_pending", "ev_pending_to_transient", "ev_persistent_to_transient",
                 "ev_pending_to_persistent", "ev_detached_to_persistent", "ev_loaded_as_persistent",
                 "ev_persistent_to_deleted", "ev_deleted_to_persistent", "ev_deleted_to_detached",
-                "ev_persistent_to_detached", "eventless_make_transient", "eventless_make_transient_to_detached"],
+                "ev_persistent_to_detached", "eventless_make_transient", "eventless_make_transient_to_detached",
+                "post_op_state_checks"],
     "assumptions": ["transition table transcribed correctly from the two documentation files named above"],
 }
 
@@ -183,7 +188,7 @@ class Tracker:
 class World:
     """One case: sessions, recorder, tracker, named objects."""
 
-    def __init__(self, ctx, rig, config, cascade):
+    def __init__(self, ctx, rig, config, cascade, expire_on_commit=True):
         from sqlalchemy import inspect
 
         from vf.gen.ormrig_gj import LifeRecorder
@@ -191,10 +196,10 @@ class World:
         self.ctx, self.rig = ctx, rig
         self.P, self.C = rig.cls["P"], rig.cls["C"]
         self.inspect = inspect
-        self.desc = {"config": config, "cascade": cascade, "ops": []}
+        self.desc = {"config": config, "cascade": cascade, "expire_on_commit": expire_on_commit, "ops": []}
         self.tr = Tracker(ctx, self.desc)
         self.rec = LifeRecorder(on_event=self.tr.on_event)
-        self.s = rig.session()
+        self.s = rig.session(expire_on_commit=expire_on_commit)
         self.s2 = None
         self.rec.attach(self.s)
         self.nested = []
@@ -360,6 +365,28 @@ def apply_op(w, op, expected_exc):
             w.desc["ops"].append(["rollback-after-error", None])
             s.rollback()
             w.nested.clear()
+    else:
+        # documented end states of the operations that finish a unit of work (only when the
+        # operation did not raise): commit -> nothing pending or deleted is left in the
+        # session; rollback -> neither; flush -> nothing pending; close / expunge_all ->
+        # nothing attached
+        forbidden = {"commit": ("pending", "deleted"), "rollback": ("pending", "deleted"), "flush": ("pending",),
+                     "close": ("pending", "persistent", "deleted"),
+                     "expunge_all": ("pending", "persistent", "deleted")}.get(name)
+        if forbidden:
+            for i, x in tr.objs.items():
+                if i in tr.tainted:
+                    continue
+                st = w.inspect(x)
+                if st.session is s:
+                    fl = tr.flags(x)
+                    if len(fl) == 1 and fl[0] in forbidden and tr.shadow.get(i) == fl[0]:
+                        w.ctx.count("post_op_state_checks_hit")
+                        tr.viol(f"instance-still-{fl[0]}-after-{name}:expire_on_commit-{s.expire_on_commit}",
+                                f"{tr.nm(x)} is still {fl[0]} in the session after a successful {name}() "
+                                f"(no lifecycle event moved it on)", x, obj=tr.nm(x))
+                        break
+            w.ctx.count("post_op_state_checks")
     tr.after_op()
 
 
@@ -380,10 +407,10 @@ NO_OBJ = {"flush", "commit", "rollback", "close", "expunge_all", "begin_nested",
           "query", "s2_close"}
 
 
-def run_case(ctx, rig, config, cascade, ops, expected_exc, extra_objs=0, kind="exh"):
+def run_case(ctx, rig, config, cascade, ops, expected_exc, extra_objs=0, kind="exh", expire_on_commit=True):
     rig.wipe()
     seed(rig)
-    w = World(ctx, rig, config, cascade)
+    w = World(ctx, rig, config, cascade, expire_on_commit)
     try:
         setup(w, config)
         for k in range(extra_objs):
@@ -434,7 +461,7 @@ def run(ctx):
         sampled = 0
         for L in range(1, maxlen + 1):
             for seq in itertools.product(EXH_ALPHABET, repeat=L):
-                for config in ("new", "loaded"):
+                for config in (("new", "loaded") if L < 3 else (("new", "loaded")[(idx // 2) % 2],)):
                     idx += 1
                     if not ctx.mine(idx):
                         continue
@@ -461,7 +488,8 @@ def run(ctx):
             for _ in range(rng.randint(6, 16)):
                 n = rng.choices(names, weights)[0]
                 ops.append((n, None if n in NO_OBJ else rng.choice(onames)))
-            w = run_case(ctx, rigs[cname], config, cname, ops, expected_exc, extra_objs=extra, kind="rand")
+            w = run_case(ctx, rigs[cname], config, cname, ops, expected_exc, extra_objs=extra, kind="rand",
+                         expire_on_commit=rng.random() < 0.6)
             ctx.count("random_histories")
             if sampled < 4 and w.tr.nevents >= 6:
                 ctx.sample({"config": config, "cascade": cname, "ops": [list(o) for o in ops]})
@@ -478,7 +506,7 @@ def run(ctx):
                     break
                 if seq[0][0] != "add":
                     continue      # every other first op is a refusal on a transient object
-                run_case(ctx, rigs["plain"], "single", "plain", seq, expected_exc)
+                run_case(ctx, rigs["plain"], "single", "plain", seq, expected_exc, expire_on_commit=bool(idx // 8 % 2))
                 ctx.count("exhaustive_sequences")
                 ctx.count("deep_sequences")
     finally:
